@@ -140,9 +140,20 @@ def run(ctx):
     fr = [n for n in cfg.live_nodes() if n.kind == "stmt" and "'FREQ='" in src(n.ast)]
     ctx.ob("C13.EMIT", strm, "FREQ is always emitted, from FREQNAMES[self._freq]", len(fr) == 1 and "FREQNAMES[self._freq]" in src(fr[0].ast)
            and cfg.path_avoiding(cfg.entry, [cfg.exit], avoid_nodes=fr) is None, construct="emit FREQ")
-    fmt = [n for n in walk_local(strm.node) if isinstance(n, ast.Constant) and isinstance(n.value, str) and "{n:" in n.value]
-    ctx.ob("C13.EMIT", strm, "nth weekdays are written with an explicit sign followed by the two-letter day ({n:+d}{wday})",
-           len(fmt) == 1 and fmt[0].value == "{n:+d}{wday}", construct="nth weekday format", detail=str([f.value for f in fmt]))
+    # the nth-weekday text: a signed decimal ordinal immediately followed by the day code, whatever the fields are called
+    import string
+    fmt = []
+    for n in walk_local(strm.node):
+        if isinstance(n, ast.Constant) and isinstance(n.value, str) and "+d" in n.value:
+            try:
+                fields = [(lit, spec) for lit, name_, spec, conv in string.Formatter().parse(n.value)]
+            except ValueError:
+                fields = None
+            fmt.append(fields)
+        if isinstance(n, ast.BinOp) and isinstance(n.op, ast.Mod) and isinstance(n.left, ast.Constant) and isinstance(n.left.value, str) and "%+d" in n.left.value:
+            fmt.append([("", "+d"), ("", "")] if n.left.value == "%+d%s" else None)
+    okf = len(fmt) == 1 and fmt[0] == [("", "+d"), ("", "")]
+    ctx.ob("C13.EMIT", strm, "nth weekdays are written with an explicit sign followed by the two-letter day ({n:+d}{wday})", okf, construct="nth weekday format", detail=str(fmt))
     # the loop over the (label, key) pairs: whatever it appends is guarded by the truthiness of the value fetched for the key
     ploop = [n for n in walk_local(strm.node) if isinstance(n, ast.For) and isinstance(n.iter, (ast.List, ast.Tuple)) and n.iter.elts and all(
         isinstance(e, ast.Tuple) and len(e.elts) == 2 and all(isinstance(x, ast.Constant) for x in e.elts) for e in n.iter.elts)]
